@@ -3,7 +3,7 @@
    that the eigenbasis of the Gram matrix provides, zero eigenvalues allowed. *)
 From Coq Require Import List Arith Lia Bool Reals Lra.
 From TLV Require Import Base.Ops Base.Tensor Base.RSum Model.Svd Proofs.SvdProofsAux Proofs.SvdProofs Proofs.SvdInterfaceProofs
-  Proofs.SvdRandProofs Proofs.SvdGramProofs Proofs.SvdSymeigFull Proofs.SvdEckartYoung.
+  Proofs.SvdRandProofs Proofs.SvdGramProofs Proofs.SvdSymeigFull Proofs.SvdEckartYoung Proofs.SvdUnique.
 Import ListNotations.
 Local Open Scope R_scope.
 
@@ -109,4 +109,92 @@ Proof.
   split; [intros i j Hij Hj; cbn [length] in Hj; assert (j = 0%nat) by lia; assert (i = 0%nat) by lia; subst; lra|].
   split; [cbn; lia|]. split; [|reflexivity].
   intros t Ht. cbn in Ht. assert (t = 0%nat) by lia. subst. exact HE.
+Qed.
+
+(* ---------- symeig_svd's singular values are the leading singular values of EVERY singular value decomposition of M ---------- *)
+Lemma sq_eq_sqrt x l : 0 <= x -> x^2 = l -> x = sqrt l.
+Proof. intros Hx E. subst l. replace (x^2) with (x * x) by ring. now rewrite sqrt_square. Qed.
+
+Theorem symeig_wide_S_true (eigh : list (list R) -> list R * list (list R)) eps (M : list (list R)) d1 d2 n lam W :
+  (d1 <= d2)%nat -> rect d1 d2 M ->
+  eigh (mmul Rops d2 (transp Rops d2 M) M) = (lam, W) ->
+  eigh_contract2 d2 (mmul Rops d2 (transp Rops d2 M) M) lam W -> ascending lam ->
+  let p := Nat.min (Nat.min d1 d2) (n_kept d1 d2 n) in
+  (forall t, (t < p)%nat -> 0 <= eps < nth (d2 - 1 - t) lam 0) ->
+  let '(U, Sg, V) := symeig_svd Rops eigh sqrt eps M d1 d2 n in
+  forall Ux Sx Vx, svd_contract d1 d2 (mg M) false (Ux, Sx, Vx) -> forall t, (t < p)%nat -> nth t Sg 0 = nth t Sx 0.
+Proof.
+  intros Hd HM HE HC ASC p Hk.
+  pose proof (symeig_wide_svd eigh eps M d1 d2 n lam W Hd HM HE HC) as T. cbv zeta in T. fold p in T. specialize (T Hk).
+  destruct (symeig_svd Rops eigh sqrt eps M d1 d2 n) as [[U Sg] V]. destruct T as (_ & SV & _).
+  destruct HC as (Ll & RW & OW & OWr & EIG).
+  intros Ux Sx Vx ((_ & LSx & _) & OUx & OVx & N1x & N2x & HMx) t Ht.
+  set (Wf := fun k t => mg W k (d2 - 1 - t)%nat).
+  set (lamf := fun t => nth (d2 - 1 - t) lam 0).
+  assert (OWf : orthonormal_cols d2 d2 Wf) by (now apply rev_cols_orth).
+  assert (OWrf : orthonormal_rows d2 d2 Wf) by (now apply rev_rows_orth).
+  assert (EIGf : forall i t, (i < d2)%nat -> (t < d2)%nat ->
+            rsum d2 (fun k => gram d1 (mg M) i k * Wf k t) = Wf i t * lamf t).
+  { intros i t0 Hi Ht0. unfold Wf, lamf. rewrite <- EIG by lia. apply rsum_ext; intros k' Hk'. f_equal.
+    rewrite (mg_mmul d2 (transp Rops d2 M) M i k' d1); try lia.
+    - unfold gram. apply rsum_ext; intros r Hr. rewrite mg_transp by lia. reflexivity.
+    - unfold transp, cols_of. now rewrite map_length, seq_length.
+    - unfold transp, cols_of. rewrite (nth_map_seq (fun x => col Rops x M) d2 i [] Hi). rewrite col_length. now destruct HM.
+    - now destruct HM. }
+  destruct (SV t Ht) as [E _]. rewrite E. fold (lamf t). symmetry. apply sq_eq_sqrt.
+  - apply (Forall_nth_len (fun x => 0 <= x)); [exact N1x | rewrite LSx; unfold p in Ht; lia].
+  - apply (orth_singular_values d1 d2 d2 (Nat.min d1 d2) (mg M) (AW d2 (mg M) Wf) (fun t c => Wf c t) (mg Ux) (mg Vx) lamf (fun t => nth t Sx 0)).
+    + intros a b Ha Hb. rewrite (AW_gram d1 d2 (mg M) Wf lamf OWf EIGf a b Ha Hb). destruct (Nat.eqb_spec a b) as [->|]; reflexivity.
+    + exact OWf.
+    + intros i j Hij Hj. unfold lamf. apply ASC; [lia | rewrite Ll; lia].
+    + intros r c Hr Hc. exact (A_expand d2 (mg M) Wf OWrf r c Hc).
+    + exact OUx.
+    + exact OVx.
+    + intros j Hj. apply (Forall_nth_len (fun x => 0 <= x)); [exact N1x | rewrite LSx; exact Hj].
+    + intros i j Hij Hj. apply N2x; [exact Hij | rewrite LSx; exact Hj].
+    + exact HMx.
+    + unfold p in Ht. lia.
+    + unfold p in Ht. lia.
+Qed.
+
+Theorem symeig_tall_S_true (eigh : list (list R) -> list R * list (list R)) eps (M : list (list R)) d1 d2 n lam W :
+  (d2 < d1)%nat -> rect d1 d2 M ->
+  eigh (mmul Rops d1 M (transp Rops d2 M)) = (lam, W) ->
+  eigh_contract2 d1 (mmul Rops d1 M (transp Rops d2 M)) lam W -> ascending lam ->
+  let p := Nat.min (Nat.min d1 d2) (n_kept d1 d2 n) in
+  (forall t, (t < p)%nat -> 0 <= eps < nth (d1 - 1 - t) lam 0) ->
+  let '(U, Sg, V) := symeig_svd Rops eigh sqrt eps M d1 d2 n in
+  forall Ux Sx Vx, svd_contract d1 d2 (mg M) false (Ux, Sx, Vx) -> forall t, (t < p)%nat -> nth t Sg 0 = nth t Sx 0.
+Proof.
+  intros Hd HM HE HC ASC p Hk.
+  pose proof (symeig_tall_svd eigh eps M d1 d2 n lam W Hd HM HE HC) as T. cbv zeta in T. fold p in T. specialize (T Hk).
+  destruct (symeig_svd Rops eigh sqrt eps M d1 d2 n) as [[U Sg] V]. destruct T as (_ & SV & _).
+  destruct HC as (Ll & RW & OW & OWr & EIG).
+  intros Ux Sx Vx ((_ & LSx & _) & OUx & OVx & N1x & N2x & HMx) t Ht.
+  set (Wf := fun k t => mg W k (d1 - 1 - t)%nat).
+  set (lamf := fun t => nth (d1 - 1 - t) lam 0).
+  set (Af := fun r c => mg M c r).
+  set (Mt := transp Rops d2 M).
+  assert (LMt : length Mt = d2) by (unfold Mt, transp, cols_of; now rewrite map_length, seq_length).
+  assert (OWf : orthonormal_cols d1 d1 Wf) by (now apply rev_cols_orth).
+  assert (OWrf : orthonormal_rows d1 d1 Wf) by (now apply rev_rows_orth).
+  assert (EIGf : forall i t, (i < d1)%nat -> (t < d1)%nat ->
+            rsum d1 (fun k => gram d2 Af i k * Wf k t) = Wf i t * lamf t).
+  { intros i t0 Hi Ht0. unfold Wf, lamf. rewrite <- EIG by lia. apply rsum_ext; intros k' Hk'. f_equal.
+    fold Mt. rewrite (mg_mmul d1 M Mt i k' d2); [ | destruct HM; lia | lia | now apply (rect_row d1 d2 M i HM) | exact LMt].
+    unfold gram, Af. apply rsum_ext; intros r Hr. unfold Mt. rewrite mg_transp by lia. reflexivity. }
+  destruct (SV t Ht) as [E _]. rewrite E. fold (lamf t). symmetry. apply sq_eq_sqrt.
+  - apply (Forall_nth_len (fun x => 0 <= x)); [exact N1x | rewrite LSx; unfold p in Ht; lia].
+  - apply (orth_singular_values d2 d1 d1 (Nat.min d1 d2) Af (AW d1 Af Wf) (fun t c => Wf c t) (fun j t => mg Vx t j) (fun t i => mg Ux i t) lamf (fun t => nth t Sx 0)).
+    + intros a b Ha Hb. rewrite (AW_gram d2 d1 Af Wf lamf OWf EIGf a b Ha Hb). destruct (Nat.eqb_spec a b) as [->|]; reflexivity.
+    + exact OWf.
+    + intros i j Hij Hj. unfold lamf. apply ASC; [lia | rewrite Ll; lia].
+    + intros r c Hr Hc. exact (A_expand d1 Af Wf OWrf r c Hc).
+    + exact OVx.
+    + exact OUx.
+    + intros j Hj. apply (Forall_nth_len (fun x => 0 <= x)); [exact N1x | rewrite LSx; exact Hj].
+    + intros i j Hij Hj. apply N2x; [exact Hij | rewrite LSx; exact Hj].
+    + intros j i Hj Hi. unfold Af. rewrite (HMx i j Hi Hj). apply rsum_ext; intros; ring.
+    + unfold p in Ht. lia.
+    + unfold p in Ht. lia.
 Qed.
